@@ -209,3 +209,1151 @@ Proof.
 Qed.
 
 Print Assumptions select_unique.
+
+(* ---------- selection ---------- *)
+
+(* BeginBlock: the committed delegatees whose own power reaches the minimum *)
+Definition eligible (minPower : Z) (all : list dg) : list dg :=
+  filter (fun d => minPower <=? d_self d) all.
+
+(* BeginBlock sort + selectValidators: delegatees[:MIN(len(delegatees), maxVals)].
+   A negative maxVals makes the slice expression panic: None. *)
+Definition select (maxN : Z) (ds : list dg) : option (list dg) :=
+  if maxN <? 0 then None
+  else Some (firstn (Z.to_nat (Z.min (Z.of_nat (length ds)) maxN)) (sort_power ds)).
+
+Lemma select_neg maxN ds : maxN < 0 -> select maxN ds = None.
+Proof. unfold select. intros H. destruct (Z.ltb_spec maxN 0); [reflexivity | lia]. Qed.
+
+Lemma select_some maxN ds :
+  0 <= maxN ->
+  select maxN ds = Some (firstn (Z.to_nat (Z.min (Z.of_nat (length ds)) maxN)) (sort_power ds)).
+Proof. unfold select. intros H. destruct (Z.ltb_spec maxN 0); [lia | reflexivity]. Qed.
+
+Lemma sort_power_length ds : length (sort_power ds) = length ds.
+Proof. apply Permutation_length. apply sort_power_perm. Qed.
+
+Theorem select_length maxN ds sel :
+  0 <= maxN -> select maxN ds = Some sel ->
+  Z.of_nat (length sel) = Z.min (Z.of_nat (length ds)) maxN.
+Proof.
+  intros H0 Hs. rewrite select_some in Hs by exact H0. injection Hs as <-.
+  rewrite firstn_length, sort_power_length. lia.
+Qed.
+
+(* the selection is a prefix of the sorted list *)
+Lemma select_prefix maxN ds sel :
+  0 <= maxN -> select maxN ds = Some sel -> exists rest, sort_power ds = sel ++ rest.
+Proof.
+  intros H0 Hs. rewrite select_some in Hs by exact H0. injection Hs as <-.
+  eexists. symmetry. apply firstn_skipn.
+Qed.
+
+Lemma StronglySorted_app_inv {A} (R : A -> A -> Prop) l1 l2 :
+  StronglySorted R (l1 ++ l2) ->
+  StronglySorted R l1 /\ StronglySorted R l2 /\ (forall a b, In a l1 -> In b l2 -> R a b).
+Proof.
+  induction l1 as [|x l1 IH]; simpl; intros Hs.
+  - split; [constructor|]. split; [exact Hs|]. intros a b [].
+  - apply StronglySorted_inv in Hs. destruct Hs as [Hs Hf].
+    destruct (IH Hs) as [H1 [H2 H3]]. rewrite Forall_forall in Hf.
+    split; [|split; [exact H2|]].
+    + constructor; [exact H1|]. rewrite Forall_forall. intros y Hy. apply Hf.
+      apply in_or_app. left. exact Hy.
+    + intros a b [<-|Ha] Hb.
+      * apply Hf. apply in_or_app. right. exact Hb.
+      * apply H3; assumption.
+Qed.
+
+Theorem select_sorted maxN ds sel :
+  0 <= maxN -> distinct ds -> select maxN ds = Some sel -> power_sorted sel.
+Proof.
+  intros H0 Hd Hs. destruct (select_prefix _ _ _ H0 Hs) as [rest Hr].
+  pose proof (sort_power_sorted ds Hd) as Hss. unfold power_sorted in Hss. rewrite Hr in Hss.
+  apply StronglySorted_app_inv in Hss. apply Hss.
+Qed.
+
+Lemma select_incl maxN ds sel d :
+  0 <= maxN -> select maxN ds = Some sel -> In d sel -> In d ds.
+Proof.
+  intros H0 Hs Hin. destruct (select_prefix _ _ _ H0 Hs) as [rest Hr].
+  eapply Permutation_in; [apply sort_power_perm|]. rewrite Hr. apply in_or_app. left. exact Hin.
+Qed.
+
+Lemma NoDup_app_l {A} (l1 l2 : list A) : NoDup (l1 ++ l2) -> NoDup l1.
+Proof.
+  induction l1 as [|x l1 IH]; simpl; intros H; [constructor|].
+  apply NoDup_cons_iff in H. destruct H as [Hx H]. constructor; [|apply IH; exact H].
+  intros Hin. apply Hx. apply in_or_app. left. exact Hin.
+Qed.
+
+Lemma select_distinct maxN ds sel :
+  0 <= maxN -> distinct ds -> select maxN ds = Some sel -> distinct sel.
+Proof.
+  intros H0 Hd Hs. destruct (select_prefix _ _ _ H0 Hs) as [rest Hr].
+  assert (Hd' : distinct (sel ++ rest)).
+  { rewrite <- Hr. eapply distinct_perm; [symmetry; apply sort_power_perm | exact Hd]. }
+  unfold distinct in *. rewrite map_app in Hd'. eapply NoDup_app_l. exact Hd'.
+Qed.
+
+(* every selected delegatee is an eligible one *)
+Theorem select_subset minPower maxN all sel d :
+  0 <= maxN -> select maxN (eligible minPower all) = Some sel ->
+  In d sel -> In d all /\ minPower <= d_self d.
+Proof.
+  intros H0 Hs Hin. pose proof (select_incl _ _ _ _ H0 Hs Hin) as He.
+  unfold eligible in He. apply filter_In in He. destruct He as [Ha Hb].
+  split; [exact Ha|]. apply Z.leb_le. exact Hb.
+Qed.
+
+(* no unselected candidate ranks before a selected one; with distinct addresses the selected
+   one ranks strictly before *)
+Theorem select_top maxN ds sel d e :
+  0 <= maxN -> distinct ds -> select maxN ds = Some sel ->
+  In d sel -> In e ds -> ~ In e sel ->
+  power_lt d e = true /\ power_lt e d = false.
+Proof.
+  intros H0 Hd Hs Hdin Hein Hnot. destruct (select_prefix _ _ _ H0 Hs) as [rest Hr].
+  pose proof (sort_power_sorted ds Hd) as Hss. unfold power_sorted in Hss. rewrite Hr in Hss.
+  apply StronglySorted_app_inv in Hss. destruct Hss as [_ [_ H3]].
+  assert (Her : In e rest).
+  { assert (In e (sel ++ rest)) as Hi.
+    { rewrite <- Hr. eapply Permutation_in; [symmetry; apply sort_power_perm | exact Hein]. }
+    apply in_app_or in Hi. destruct Hi as [Hi|Hi]; [contradiction | exact Hi]. }
+  pose proof (H3 _ _ Hdin Her) as Hlt. unfold ltP in Hlt. split; [exact Hlt|].
+  apply (lt_asym dg power_lt power_lt_irrefl power_lt_trans). exact Hlt.
+Qed.
+
+(* if the candidates do not fill the set, all of them are selected *)
+Theorem select_all maxN ds sel :
+  Z.of_nat (length ds) <= maxN -> select maxN ds = Some sel -> sel = sort_power ds.
+Proof.
+  intros Hle Hs. rewrite select_some in Hs by lia. injection Hs as <-.
+  rewrite Z.min_l by lia. rewrite Nat2Z.id. rewrite <- sort_power_length. apply firstn_all.
+Qed.
+
+(* the set kept as lastValidators (sorted by address, then by power again) is the selection *)
+Theorem select_resort maxN ds sel :
+  0 <= maxN -> distinct ds -> select maxN ds = Some sel -> sort_power (sort_addr sel) = sel.
+Proof.
+  intros H0 Hd Hs. rewrite sort_power_sort_addr by (eapply select_distinct; eassumption).
+  apply sort_power_id. eapply select_sorted; eassumption.
+Qed.
+
+(* selectValidators with any correct sort in BeginBlock gives the model's selection *)
+Corollary select_unique_prefix maxN ds l' sel :
+  0 <= maxN -> distinct ds -> Permutation l' ds -> go_sorted dg power_lt l' ->
+  select maxN ds = Some sel ->
+  firstn (Z.to_nat (Z.min (Z.of_nat (length l')) maxN)) l' = sel.
+Proof.
+  intros H0 Hd Hp Hg Hs. rewrite (select_unique ds l' Hd Hp Hg).
+  rewrite select_some in Hs by exact H0. injection Hs as <-.
+  rewrite sort_power_length. reflexivity.
+Qed.
+
+Print Assumptions select_length.
+Print Assumptions select_sorted.
+Print Assumptions select_subset.
+Print Assumptions select_top.
+Print Assumptions select_resort.
+
+(* ---------- validatorUpdates ---------- *)
+
+Definition vals (l : list dg) : list (N * Z) := map (fun d => (d_addr d, d_total d)) l.
+Definition removals (l : list dg) : list (N * Z) := map (fun d => (d_addr d, 0)) l.
+
+(* The merge loop of validatorUpdates over two address-sorted slices, with its two trailing
+   loops.  An update is (address, power); power 0 is a removal. *)
+Fixpoint updates (old new : list dg) {struct old} : list (N * Z) :=
+  match old with
+  | [] => vals new
+  | o :: old' =>
+    (fix go (new : list dg) {struct new} : list (N * Z) :=
+       match new with
+       | [] => removals (o :: old')
+       | n :: new' =>
+         match N.compare (d_addr o) (d_addr n) with
+         | Lt => (d_addr o, 0) :: updates old' (n :: new')
+         | Eq => if d_total o =? d_total n then updates old' new'
+                 else (d_addr n, d_total n) :: updates old' new'
+         | Gt => (d_addr n, d_total n) :: go new'
+         end
+       end) new
+  end.
+
+Lemma updates_nil_l new : updates [] new = vals new.
+Proof. reflexivity. Qed.
+
+Lemma updates_nil_r old : updates old [] = removals old.
+Proof. destruct old; reflexivity. Qed.
+
+Lemma updates_cons o old' n new' :
+  updates (o :: old') (n :: new') =
+  match N.compare (d_addr o) (d_addr n) with
+  | Lt => (d_addr o, 0) :: updates old' (n :: new')
+  | Eq => if d_total o =? d_total n then updates old' new'
+          else (d_addr n, d_total n) :: updates old' new'
+  | Gt => (d_addr n, d_total n) :: updates (o :: old') new'
+  end.
+Proof. reflexivity. Qed.
+
+(* induction principle following the loop *)
+Lemma updates_ind (P : list dg -> list dg -> Prop) :
+  (forall new, P [] new) ->
+  (forall o old', P (o :: old') []) ->
+  (forall o old' n new',
+     (d_addr o < d_addr n)%N -> P old' (n :: new') -> P (o :: old') (n :: new')) ->
+  (forall o old' n new',
+     d_addr o = d_addr n -> P old' new' -> P (o :: old') (n :: new')) ->
+  (forall o old' n new',
+     (d_addr n < d_addr o)%N -> P (o :: old') new' -> P (o :: old') (n :: new')) ->
+  forall old new, P old new.
+Proof.
+  intros Hnl Hnr Hlt Heq Hgt. induction old as [|o old' IHo]; [exact Hnl|].
+  induction new as [|n new' IHn]; [apply Hnr|].
+  destruct (N.compare_spec (d_addr o) (d_addr n)) as [E|L|G].
+  - apply Heq; [exact E | apply IHo].
+  - apply Hlt; [exact L | apply IHo].
+  - apply Hgt; [exact G | exact IHn].
+Qed.
+
+Ltac upd_case :=
+  rewrite updates_cons;
+  match goal with
+  | H : (d_addr ?o < d_addr ?n)%N |- context [N.compare (d_addr ?o) (d_addr ?n)] =>
+      rewrite (proj2 (N.compare_lt_iff _ _) H)
+  | H : (d_addr ?n < d_addr ?o)%N |- context [N.compare (d_addr ?o) (d_addr ?n)] =>
+      rewrite (proj2 (N.compare_gt_iff _ _) H)
+  | H : d_addr ?o = d_addr ?n |- context [N.compare (d_addr ?o) (d_addr ?n)] =>
+      rewrite (proj2 (N.compare_eq_iff _ _) H)
+  end.
+
+(* where an update comes from: a removal names a member of old, anything else is an entry of
+   new with its total power *)
+Lemma in_vals a p l : In (a, p) (vals l) <-> exists d, In d l /\ d_addr d = a /\ d_total d = p.
+Proof.
+  unfold vals. rewrite in_map_iff. split.
+  - intros [d [E H]]. injection E as E1 E2. exists d. auto.
+  - intros [d [H [E1 E2]]]. exists d. subst. auto.
+Qed.
+
+Lemma in_removals a p l : In (a, p) (removals l) <-> p = 0 /\ In a (map d_addr l).
+Proof.
+  unfold removals. rewrite in_map_iff. split.
+  - intros [d [E H]]. injection E as E1 E2. subst. split; [reflexivity|]. apply in_map. exact H.
+  - intros [E H]. apply in_map_iff in H. destruct H as [d [E1 H]]. exists d. subst. auto.
+Qed.
+
+Lemma updates_source old new a p :
+  In (a, p) (updates old new) ->
+  (p = 0 /\ In a (map d_addr old)) \/ (exists d, In d new /\ d_addr d = a /\ d_total d = p).
+Proof.
+  revert old new.
+  apply (updates_ind (fun old new => In (a, p) (updates old new) ->
+    (p = 0 /\ In a (map d_addr old)) \/ (exists d, In d new /\ d_addr d = a /\ d_total d = p))).
+  - intros new H. right. apply in_vals. exact H.
+  - intros o old' H. rewrite updates_nil_r in H. left. apply in_removals. exact H.
+  - intros o old' n new' L IH H. revert H. upd_case. intros [H|H].
+    + injection H as <- <-. left. split; [reflexivity | left; reflexivity].
+    + destruct (IH H) as [[E Hi]|Hx]; [left | right; exact Hx].
+      split; [exact E | right; exact Hi].
+  - intros o old' n new' E IH H. revert H. upd_case.
+    assert (Hrec : In (a, p) (updates old' new') ->
+      (p = 0 /\ In a (map d_addr (o :: old'))) \/
+      (exists d, In d (n :: new') /\ d_addr d = a /\ d_total d = p)).
+    { intros H. destruct (IH H) as [[E0 Hi]|[d [Hd Hx]]].
+      - left. split; [exact E0 | right; exact Hi].
+      - right. exists d. split; [right; exact Hd | exact Hx]. }
+    destruct (d_total o =? d_total n); [exact Hrec|].
+    intros [H|H]; [|exact (Hrec H)].
+    injection H as <- <-. right. exists n. split; [left; reflexivity | split; reflexivity].
+  - intros o old' n new' G IH H. revert H. upd_case. intros [H|H].
+    + injection H as <- <-. right. exists n. split; [left; reflexivity | split; reflexivity].
+    + destruct (IH H) as [Hl|[d [Hd Hx]]]; [left; exact Hl|].
+      right. exists d. split; [right; exact Hd | exact Hx].
+Qed.
+
+Lemma updates_keys_in old new a :
+  In a (map fst (updates old new)) -> In a (map d_addr old) \/ In a (map d_addr new).
+Proof.
+  intros H. apply in_map_iff in H. destruct H as [[a' p] [E H]]. simpl in E. subst a'.
+  destruct (updates_source _ _ _ _ H) as [[_ Hi]|[d [Hd [E _]]]].
+  - left. exact Hi.
+  - right. subst a. apply in_map. exact Hd.
+Qed.
+
+(* theorem 3, precise form *)
+Theorem updates_zero_source old new a :
+  In (a, 0) (updates old new) ->
+  In a (map d_addr old) \/ (exists d, In d new /\ d_addr d = a /\ d_total d = 0).
+Proof.
+  intros H. destruct (updates_source _ _ _ _ H) as [[_ Hi]|Hx]; [left; exact Hi | right; exact Hx].
+Qed.
+
+(* theorem 3, clean form: with positive new powers, a power-0 update removes a member of old *)
+Theorem updates_removals_in_old old new a :
+  (forall d, In d new -> 0 < d_total d) ->
+  In (a, 0) (updates old new) -> In a (map d_addr old).
+Proof.
+  intros Hpos H. destruct (updates_zero_source _ _ _ H) as [Hi|[d [Hd [_ E]]]]; [exact Hi|].
+  pose proof (Hpos _ Hd). lia.
+Qed.
+
+Theorem updates_nonneg old new :
+  (forall d, In d new -> 0 <= d_total d) ->
+  forall a p, In (a, p) (updates old new) -> 0 <= p.
+Proof.
+  intros Hnn a p H. destruct (updates_source _ _ _ _ H) as [[E _]|[d [Hd [_ E]]]]; [lia|].
+  pose proof (Hnn _ Hd). lia.
+Qed.
+
+Print Assumptions updates_zero_source.
+Print Assumptions updates_removals_in_old.
+Print Assumptions updates_nonneg.
+
+(* ---------- the update list is address-sorted, hence duplicate-free ---------- *)
+
+Definition above (a : N) (l : list dg) : Prop := forall k, In k (map d_addr l) -> (a < k)%N.
+
+Lemma addr_sorted_inv o l : addr_sorted (o :: l) -> addr_sorted l /\ above (d_addr o) l.
+Proof.
+  unfold addr_sorted, above. simpl. intros H. apply StronglySorted_inv in H.
+  destruct H as [Hs Hf]. split; [exact Hs|]. rewrite Forall_forall in Hf. exact Hf.
+Qed.
+
+Lemma addr_sorted_cons o l : addr_sorted l -> above (d_addr o) l -> addr_sorted (o :: l).
+Proof.
+  unfold addr_sorted, above. simpl. intros Hs Hf. constructor; [exact Hs|].
+  rewrite Forall_forall. exact Hf.
+Qed.
+
+Lemma above_cons a n l : (a < d_addr n)%N -> above (d_addr n) l -> above a (n :: l).
+Proof.
+  unfold above. simpl. intros H1 H2 k [<-|Hk]; [exact H1|]. pose proof (H2 _ Hk). lia.
+Qed.
+
+Lemma above_lt a b l : (a <= b)%N -> above b l -> above a l.
+Proof. unfold above. intros H1 H2 k Hk. pose proof (H2 _ Hk). lia. Qed.
+
+Lemma map_fst_vals l : map fst (vals l) = map d_addr l.
+Proof. unfold vals. rewrite map_map. reflexivity. Qed.
+
+Lemma map_fst_removals l : map fst (removals l) = map d_addr l.
+Proof. unfold removals. rewrite map_map. reflexivity. Qed.
+
+Lemma updates_keys_above a old new :
+  above a old -> above a new -> forall k, In k (map fst (updates old new)) -> (a < k)%N.
+Proof.
+  intros Ho Hn k Hk. destruct (updates_keys_in _ _ _ Hk) as [H|H]; [apply Ho | apply Hn]; exact H.
+Qed.
+
+Lemma updates_keys_sorted old new :
+  addr_sorted old -> addr_sorted new -> StronglySorted N.lt (map fst (updates old new)).
+Proof.
+  revert old new.
+  apply (updates_ind (fun old new => addr_sorted old -> addr_sorted new ->
+                                     StronglySorted N.lt (map fst (updates old new)))).
+  - intros new _ Hn. rewrite updates_nil_l, map_fst_vals. exact Hn.
+  - intros o old' Ho _. rewrite updates_nil_r, map_fst_removals. exact Ho.
+  - intros o old' n new' L IH Ho Hn. upd_case. rewrite map_cons. cbn [fst].
+    destruct (addr_sorted_inv _ _ Ho) as [Ho' Hao]. destruct (addr_sorted_inv _ _ Hn) as [Hn' Han].
+    constructor; [apply IH; assumption|]. rewrite Forall_forall.
+    apply updates_keys_above; [exact Hao|]. apply above_cons; assumption.
+  - intros o old' n new' E IH Ho Hn. upd_case.
+    destruct (addr_sorted_inv _ _ Ho) as [Ho' Hao]. destruct (addr_sorted_inv _ _ Hn) as [Hn' Han].
+    destruct (d_total o =? d_total n); [apply IH; assumption|]. rewrite map_cons. cbn [fst].
+    constructor; [apply IH; assumption|]. rewrite Forall_forall.
+    apply updates_keys_above; [rewrite <- E; exact Hao | exact Han].
+  - intros o old' n new' G IH Ho Hn. upd_case. rewrite map_cons. cbn [fst].
+    destruct (addr_sorted_inv _ _ Ho) as [Ho' Hao]. destruct (addr_sorted_inv _ _ Hn) as [Hn' Han].
+    constructor; [apply IH; assumption|]. rewrite Forall_forall.
+    apply updates_keys_above; [|exact Han]. apply above_cons; assumption.
+Qed.
+
+Lemma sorted_N_NoDup (k : list N) : StronglySorted N.lt k -> NoDup k.
+Proof.
+  induction 1 as [|a k Hs IH Hf]; constructor; [|exact IH].
+  intros Hin. rewrite Forall_forall in Hf. pose proof (Hf _ Hin). lia.
+Qed.
+
+(* theorem 2 *)
+Theorem updates_nodup old new :
+  addr_sorted old -> addr_sorted new -> NoDup (map fst (updates old new)).
+Proof. intros Ho Hn. apply sorted_N_NoDup. apply updates_keys_sorted; assumption. Qed.
+
+Print Assumptions updates_nodup.
+
+Arguments updates : simpl never.
+
+(* ---------- Tendermint's application of validator updates ---------- *)
+
+(* A validator set is an address-sorted association list (address, power). *)
+Fixpoint set_put (a : N) (p : Z) (s : list (N * Z)) : list (N * Z) :=
+  match s with
+  | [] => [(a, p)]
+  | (k, v) :: r =>
+    match N.compare a k with
+    | Lt => (a, p) :: (k, v) :: r
+    | Eq => (a, p) :: r
+    | Gt => (k, v) :: set_put a p r
+    end
+  end.
+
+Definition set_remove (a : N) (s : list (N * Z)) : list (N * Z) :=
+  filter (fun kv => negb (N.eqb (fst kv) a)) s.
+
+(* power 0 removes the validator, any other power inserts it or replaces its power *)
+Definition apply_update (s : list (N * Z)) (u : N * Z) : list (N * Z) :=
+  if snd u =? 0 then set_remove (fst u) s else set_put (fst u) (snd u) s.
+
+Definition apply_updates (s ups : list (N * Z)) : list (N * Z) := fold_left apply_update ups s.
+
+(* What Tendermint (types/validator_set.go, updateWithChangeSet) rejects before applying:
+   duplicate addresses, negative power, removal of an address that is not in the set. *)
+Definition set_mem (a : N) (s : list (N * Z)) : bool := existsb (fun kv => N.eqb (fst kv) a) s.
+
+Fixpoint nodupb (l : list N) : bool :=
+  match l with
+  | [] => true
+  | a :: r => negb (existsb (N.eqb a) r) && nodupb r
+  end.
+
+Definition tm_check (s ups : list (N * Z)) : bool :=
+  nodupb (map fst ups)
+  && forallb (fun u => 0 <=? snd u) ups
+  && forallb (fun u => negb (snd u =? 0) || set_mem (fst u) s) ups.
+
+Definition tm_apply_updates (s ups : list (N * Z)) : option (list (N * Z)) :=
+  if tm_check s ups then Some (apply_updates s ups) else None.
+
+Lemma apply_updates_cons s u ups : apply_updates s (u :: ups) = apply_updates (apply_update s u) ups.
+Proof. reflexivity. Qed.
+
+Lemma apply_updates_nil s : apply_updates s [] = s.
+Proof. reflexivity. Qed.
+
+Lemma apply_update_head k v s a p :
+  (k < a)%N -> apply_update ((k, v) :: s) (a, p) = (k, v) :: apply_update s (a, p).
+Proof.
+  intros L. unfold apply_update. cbn [fst snd]. destruct (p =? 0).
+  - unfold set_remove. cbn [filter fst]. destruct (N.eqb_spec k a); [lia | reflexivity].
+  - cbn [set_put]. rewrite (proj2 (N.compare_gt_iff a k)) by exact L. reflexivity.
+Qed.
+
+Lemma apply_updates_head k v s ups :
+  (forall a, In a (map fst ups) -> (k < a)%N) ->
+  apply_updates ((k, v) :: s) ups = (k, v) :: apply_updates s ups.
+Proof.
+  revert s. induction ups as [|[a p] ups IH]; intros s Hk; [reflexivity|].
+  rewrite !apply_updates_cons. rewrite apply_update_head by (apply Hk; left; reflexivity).
+  apply IH. intros b Hb. apply Hk. right. exact Hb.
+Qed.
+
+Lemma set_remove_above a l : above a l -> set_remove a (vals l) = vals l.
+Proof.
+  unfold above, set_remove. induction l as [|d l IH]; intros Ha; [reflexivity|].
+  cbn [vals map filter fst].
+  destruct (N.eqb_spec (d_addr d) a) as [E|_].
+  - pose proof (Ha (d_addr d) (or_introl eq_refl)). lia.
+  - cbn [negb]. f_equal. apply IH. intros k Hk. apply Ha. right. exact Hk.
+Qed.
+
+Lemma apply_remove_head o l :
+  above (d_addr o) l -> apply_update (vals (o :: l)) (d_addr o, 0) = vals l.
+Proof.
+  intros Ha. unfold apply_update. cbn [fst snd Z.eqb]. unfold set_remove.
+  cbn [vals map filter fst]. rewrite N.eqb_refl. cbn [negb].
+  apply (set_remove_above _ _ Ha).
+Qed.
+
+Definition nonzero (l : list dg) : Prop := forall d, In d l -> d_total d <> 0.
+
+Lemma nonzero_tail d l : nonzero (d :: l) -> nonzero l.
+Proof. intros H x Hx. apply H. right. exact Hx. Qed.
+
+Lemma apply_put_nz s a p : p <> 0 -> apply_update s (a, p) = set_put a p s.
+Proof. intros H. unfold apply_update. cbn [fst snd]. destruct (Z.eqb_spec p 0); [contradiction | reflexivity]. Qed.
+
+Lemma apply_adds new : addr_sorted new -> nonzero new -> apply_updates [] (vals new) = vals new.
+Proof.
+  induction new as [|n new' IH]; intros Hs Hz; [reflexivity|].
+  destruct (addr_sorted_inv _ _ Hs) as [Hs' Ha].
+  change (vals (n :: new')) with ((d_addr n, d_total n) :: vals new').
+  rewrite apply_updates_cons. rewrite apply_put_nz by (apply Hz; left; reflexivity).
+  cbn [set_put]. rewrite apply_updates_head.
+  - f_equal. apply IH; [exact Hs' | eapply nonzero_tail; exact Hz].
+  - rewrite map_fst_vals. exact Ha.
+Qed.
+
+Lemma apply_removals old : addr_sorted old -> apply_updates (vals old) (removals old) = [].
+Proof.
+  induction old as [|o old' IH]; intros Hs; [reflexivity|].
+  destruct (addr_sorted_inv _ _ Hs) as [Hs' Ha].
+  change (removals (o :: old')) with ((d_addr o, 0) :: removals old').
+  rewrite apply_updates_cons, (apply_remove_head _ _ Ha). apply IH. exact Hs'.
+Qed.
+
+(* theorem 1 *)
+Theorem updates_apply old new :
+  addr_sorted old -> addr_sorted new -> nonzero new ->
+  apply_updates (vals old) (updates old new) = vals new.
+Proof.
+  revert old new.
+  apply (updates_ind (fun old new => addr_sorted old -> addr_sorted new -> nonzero new ->
+                        apply_updates (vals old) (updates old new) = vals new)).
+  - intros new _ Hn Hz. rewrite ?updates_nil_l. apply apply_adds; assumption.
+  - intros o old' Ho _ _. rewrite ?updates_nil_r. apply apply_removals. exact Ho.
+  - intros o old' n new' L IH Ho Hn Hz. upd_case.
+    destruct (addr_sorted_inv _ _ Ho) as [Ho' Hao].
+    rewrite apply_updates_cons, (apply_remove_head _ _ Hao). apply IH; assumption.
+  - intros o old' n new' E IH Ho Hn Hz. upd_case.
+    destruct (addr_sorted_inv _ _ Ho) as [Ho' Hao]. destruct (addr_sorted_inv _ _ Hn) as [Hn' Han].
+    assert (Hk : forall a, In a (map fst (updates old' new')) -> (d_addr n < a)%N).
+    { apply updates_keys_above; [rewrite <- E; exact Hao | exact Han]. }
+    change (vals (n :: new')) with ((d_addr n, d_total n) :: vals new').
+    change (vals (o :: old')) with ((d_addr o, d_total o) :: vals old').
+    destruct (Z.eqb_spec (d_total o) (d_total n)) as [Et|Et].
+    + rewrite E, Et. rewrite apply_updates_head by exact Hk.
+      f_equal. apply IH; [exact Ho' | exact Hn' | eapply nonzero_tail; exact Hz].
+    + rewrite apply_updates_cons. rewrite apply_put_nz by (apply Hz; left; reflexivity).
+      cbn [set_put]. rewrite (proj2 (N.compare_eq_iff (d_addr n) (d_addr o))) by (symmetry; exact E).
+      rewrite apply_updates_head by exact Hk.
+      f_equal. apply IH; [exact Ho' | exact Hn' | eapply nonzero_tail; exact Hz].
+  - intros o old' n new' G IH Ho Hn Hz. upd_case.
+    destruct (addr_sorted_inv _ _ Ho) as [Ho' Hao]. destruct (addr_sorted_inv _ _ Hn) as [Hn' Han].
+    change (vals (n :: new')) with ((d_addr n, d_total n) :: vals new').
+    rewrite apply_updates_cons. rewrite apply_put_nz by (apply Hz; left; reflexivity).
+    change (vals (o :: old')) with ((d_addr o, d_total o) :: vals old') at 1.
+    cbn [set_put]. rewrite (proj2 (N.compare_lt_iff (d_addr n) (d_addr o))) by exact G.
+    change ((d_addr o, d_total o) :: vals old') with (vals (o :: old')).
+    rewrite apply_updates_head.
+    + f_equal. apply IH; [exact Ho | exact Hn' | eapply nonzero_tail; exact Hz].
+    + apply updates_keys_above; [|exact Han]. apply above_cons; assumption.
+Qed.
+
+Print Assumptions updates_apply.
+
+(* ---------- well-formedness for the consensus engine ---------- *)
+
+Lemma nodupb_true (l : list N) : NoDup l -> nodupb l = true.
+Proof.
+  induction 1 as [|a l Hn Hnd IH]; [reflexivity|]. cbn [nodupb]. rewrite IH, andb_true_r.
+  destruct (existsb (N.eqb a) l) eqn:E; [|reflexivity].
+  apply existsb_exists in E. destruct E as [x [Hx Hax]]. apply N.eqb_eq in Hax. subst x.
+  contradiction.
+Qed.
+
+Lemma set_mem_vals a l : In a (map d_addr l) -> set_mem a (vals l) = true.
+Proof.
+  intros H. apply in_map_iff in H. destruct H as [d [E H]]. unfold set_mem.
+  apply existsb_exists. exists (d_addr d, d_total d). split.
+  - unfold vals. apply in_map_iff. exists d. auto.
+  - cbn [fst]. apply N.eqb_eq. exact E.
+Qed.
+
+Lemma updates_tm_check old new :
+  addr_sorted old -> addr_sorted new -> (forall d, In d new -> 0 < d_total d) ->
+  tm_check (vals old) (updates old new) = true.
+Proof.
+  intros Ho Hn Hpos. unfold tm_check. rewrite !andb_true_iff. split; [split|].
+  - apply nodupb_true. apply updates_nodup; assumption.
+  - apply forallb_forall. intros [a p] H. cbn [snd]. apply Z.leb_le.
+    eapply updates_nonneg; [|exact H]. intros d Hd. pose proof (Hpos d Hd). lia.
+  - apply forallb_forall. intros [a p] H. cbn [fst snd].
+    destruct (Z.eqb_spec p 0) as [E|E]; [|reflexivity]. subst p. cbn [negb orb].
+    apply set_mem_vals. eapply updates_removals_in_old; eassumption.
+Qed.
+
+(* theorems 1-3 together: Tendermint accepts the update list and ends up with the new set *)
+Theorem updates_wellformed old new :
+  addr_sorted old -> addr_sorted new -> (forall d, In d new -> 0 < d_total d) ->
+  tm_apply_updates (vals old) (updates old new) = Some (vals new).
+Proof.
+  intros Ho Hn Hpos. unfold tm_apply_updates. rewrite updates_tm_check by assumption.
+  f_equal. apply updates_apply; try assumption. intros d Hd. pose proof (Hpos d Hd). lia.
+Qed.
+
+(* Without the hypothesis on the new powers theorems 1 and 3 are false: a validator that is added
+   (or changed) with total power 0 is emitted with power 0, which Tendermint reads as a removal. *)
+Theorem updates_apply_zero_refuted :
+  exists old new, addr_sorted old /\ addr_sorted new /\
+                  apply_updates (vals old) (updates old new) <> vals new.
+Proof.
+  exists [], [mk_dg 1 0 0 0]. split; [constructor|]. split; [repeat constructor|].
+  vm_compute. discriminate.
+Qed.
+
+Theorem updates_removals_zero_refuted :
+  exists old new a, addr_sorted old /\ addr_sorted new /\
+                    In (a, 0) (updates old new) /\ ~ In a (map d_addr old) /\
+                    tm_apply_updates (vals old) (updates old new) = None.
+Proof.
+  exists [], [mk_dg 1 0 0 0], 1%N. split; [constructor|]. split; [repeat constructor|].
+  split; [left; reflexivity|]. split; [intros []|]. reflexivity.
+Qed.
+
+Print Assumptions updates_wellformed.
+Print Assumptions updates_apply_zero_refuted.
+Print Assumptions updates_removals_zero_refuted.
+
+(* ---------- minimality: exactly the differences are reported ---------- *)
+
+Fixpoint lookup (a : N) (s : list (N * Z)) : option Z :=
+  match s with
+  | [] => None
+  | (k, v) :: r => if N.eqb k a then Some v else lookup a r
+  end.
+
+Definition pw (o : option Z) : Z := match o with Some q => q | None => 0 end.
+
+(* theorem 4a (and its converse); no sortedness needed *)
+Theorem updates_minimal old new : vals old = vals new -> updates old new = [].
+Proof.
+  revert new. induction old as [|o old' IH]; intros new H.
+  - rewrite updates_nil_l. symmetry. exact H.
+  - destruct new as [|n new']; [discriminate H|].
+    change (vals (o :: old')) with ((d_addr o, d_total o) :: vals old') in H.
+    change (vals (n :: new')) with ((d_addr n, d_total n) :: vals new') in H.
+    injection H as Ea Et Hr. rewrite updates_cons.
+    rewrite (proj2 (N.compare_eq_iff _ _) Ea). rewrite (proj2 (Z.eqb_eq _ _) Et).
+    apply IH. exact Hr.
+Qed.
+
+Theorem updates_nil_inv old new : updates old new = [] -> vals old = vals new.
+Proof.
+  revert old new.
+  apply (updates_ind (fun old new => updates old new = [] -> vals old = vals new)).
+  - intros new H. rewrite ?updates_nil_l in H. symmetry. exact H.
+  - intros o old' H. rewrite ?updates_nil_r in H. discriminate H.
+  - intros o old' n new' L IH. upd_case. discriminate.
+  - intros o old' n new' E IH. upd_case.
+    destruct (Z.eqb_spec (d_total o) (d_total n)) as [Et|Et]; [|discriminate].
+    intros H. change (vals (o :: old')) with ((d_addr o, d_total o) :: vals old').
+    change (vals (n :: new')) with ((d_addr n, d_total n) :: vals new').
+    rewrite E, Et, (IH H). reflexivity.
+  - intros o old' n new' G IH. upd_case. discriminate.
+Qed.
+
+Lemma lookup_cons a d l :
+  lookup a (vals (d :: l)) = if N.eqb (d_addr d) a then Some (d_total d) else lookup a (vals l).
+Proof. reflexivity. Qed.
+
+Lemma lookup_none_iff a l : lookup a (vals l) = None <-> ~ In a (map d_addr l).
+Proof.
+  induction l as [|d l IH]; [simpl; tauto|]. rewrite lookup_cons. cbn [map In].
+  destruct (N.eqb_spec (d_addr d) a) as [E|E].
+  - split; [discriminate | intros H; exfalso; apply H; left; exact E].
+  - rewrite IH. tauto.
+Qed.
+
+Lemma lookup_above a b l : (a <= b)%N -> above b l -> lookup a (vals l) = None.
+Proof.
+  intros Hab Ha. apply lookup_none_iff. intros Hin. pose proof (Ha _ Hin). lia.
+Qed.
+
+Lemma in_vals_lookup a p l : addr_sorted l -> (In (a, p) (vals l) <-> lookup a (vals l) = Some p).
+Proof.
+  induction l as [|d l IH]; intros Hs; [simpl; split; [tauto | discriminate]|].
+  destruct (addr_sorted_inv _ _ Hs) as [Hs' Ha]. rewrite lookup_cons.
+  change (vals (d :: l)) with ((d_addr d, d_total d) :: vals l). cbn [In].
+  rewrite pair_equal_spec, (IH Hs').
+  destruct (N.eqb_spec (d_addr d) a) as [E|E].
+  - subst a. rewrite (lookup_above _ _ _ (N.le_refl _) Ha).
+    split; [intros [[_ H]|H]; [congruence | discriminate H] | intros H; left; split; congruence].
+  - split; [intros [[H _]|H]; [contradiction | exact H] | intros H; right; exact H].
+Qed.
+
+(* theorem 4b: an update (a, p) is emitted iff the entry of a differs between old and new, and
+   then p is a's new power, or 0 if a is not in new *)
+Theorem updates_spec old new a p :
+  addr_sorted old -> addr_sorted new ->
+  (In (a, p) (updates old new) <->
+   lookup a (vals old) <> lookup a (vals new) /\ p = pw (lookup a (vals new))).
+Proof.
+  revert old new.
+  apply (updates_ind (fun old new => addr_sorted old -> addr_sorted new ->
+    (In (a, p) (updates old new) <->
+     lookup a (vals old) <> lookup a (vals new) /\ p = pw (lookup a (vals new))))).
+  - intros new _ Hn. rewrite ?updates_nil_l. rewrite (in_vals_lookup _ _ _ Hn).
+    change (lookup a (vals [])) with (@None Z).
+    destruct (lookup a (vals new)) as [q|]; cbn [pw].
+    + split; [intros H; split; congruence | intros [_ H]; congruence].
+    + split; [discriminate | intros [H _]; contradiction H; reflexivity].
+  - intros o old' Ho _. rewrite ?updates_nil_r. rewrite in_removals.
+    change (lookup a (vals [])) with (@None Z). cbn [pw].
+    rewrite lookup_none_iff.
+    split; [intros [H1 H2]; split; [tauto | exact H1]|].
+    intros [H1 H2]. split; [exact H2|].
+    destruct (in_dec N.eq_dec a (map d_addr (o :: old'))) as [Hi|Hi]; [exact Hi | contradiction].
+  - intros o old' n new' L IH Ho Hn. upd_case.
+    destruct (addr_sorted_inv _ _ Ho) as [Ho' Hao]. destruct (addr_sorted_inv _ _ Hn) as [Hn' Han].
+    specialize (IH Ho' Hn). rewrite (lookup_cons a o old'). cbn [In].
+    rewrite IH, pair_equal_spec.
+    destruct (N.eqb_spec (d_addr o) a) as [E|E].
+    + subst a. rewrite (lookup_above _ _ old' (N.le_refl _) Hao).
+      rewrite (lookup_above (d_addr o) (d_addr o) (n :: new') (N.le_refl _))
+        by (apply above_cons; assumption).
+      cbn [pw]. split.
+      * intros [[_ H]|[H _]]; [split; [discriminate | congruence] | contradiction H; reflexivity].
+      * intros [_ H]. left. split; congruence.
+    + split; [intros [[H _]|H]; [contradiction | exact H] | intros H; right; exact H].
+  - intros o old' n new' E IH Ho Hn. upd_case.
+    destruct (addr_sorted_inv _ _ Ho) as [Ho' Hao]. destruct (addr_sorted_inv _ _ Hn) as [Hn' Han].
+    specialize (IH Ho' Hn'). rewrite (lookup_cons a o old'), (lookup_cons a n new').
+    rewrite <- E.
+    destruct (Z.eqb_spec (d_total o) (d_total n)) as [Et|Et].
+    + rewrite IH. destruct (N.eqb_spec (d_addr o) a) as [Ea|Ea]; [|tauto].
+      subst a. rewrite (lookup_above _ _ old' (N.le_refl _) Hao).
+      rewrite (lookup_above (d_addr o) (d_addr n) new') by (try lia; exact Han).
+      split; [intros [H _]; contradiction H; reflexivity | intros [H _]; congruence].
+    + cbn [In]. rewrite IH, pair_equal_spec.
+      destruct (N.eqb_spec (d_addr o) a) as [Ea|Ea].
+      * subst a. rewrite (lookup_above _ _ old' (N.le_refl _) Hao).
+        rewrite (lookup_above (d_addr o) (d_addr n) new') by (try lia; exact Han).
+        cbn [pw]. split.
+        -- intros [[_ H]|[H _]]; [split; congruence | contradiction H; reflexivity].
+        -- intros [_ H]. left. split; congruence.
+      * split; [intros [[H _]|H]; [congruence | exact H] | intros H; right; exact H].
+  - intros o old' n new' G IH Ho Hn. upd_case.
+    destruct (addr_sorted_inv _ _ Ho) as [Ho' Hao]. destruct (addr_sorted_inv _ _ Hn) as [Hn' Han].
+    specialize (IH Ho Hn'). rewrite (lookup_cons a n new'). cbn [In].
+    rewrite IH, pair_equal_spec.
+    destruct (N.eqb_spec (d_addr n) a) as [Ea|Ea].
+    + subst a. rewrite (lookup_above _ _ new' (N.le_refl _) Han).
+      rewrite (lookup_above (d_addr n) (d_addr n) (o :: old') (N.le_refl _))
+        by (apply above_cons; assumption).
+      cbn [pw]. split.
+      * intros [[_ H]|[H _]]; [split; congruence | contradiction H; reflexivity].
+      * intros [_ H]. left. split; congruence.
+    + split; [intros [[H _]|H]; [contradiction | exact H] | intros H; right; exact H].
+Qed.
+
+(* address-level form: an address appears among the updates iff its (presence, power) differs *)
+Theorem updates_key_iff old new a :
+  addr_sorted old -> addr_sorted new ->
+  (In a (map fst (updates old new)) <-> lookup a (vals old) <> lookup a (vals new)).
+Proof.
+  intros Ho Hn. split.
+  - intros H. apply in_map_iff in H. destruct H as [[a' p] [E H]]. cbn [fst] in E. subst a'.
+    apply (updates_spec _ _ _ _ Ho Hn) in H. apply H.
+  - intros H. apply in_map_iff. exists (a, pw (lookup a (vals new))). split; [reflexivity|].
+    apply (updates_spec _ _ _ _ Ho Hn). split; [exact H | reflexivity].
+Qed.
+
+(* exact form of theorem 3 under positive new powers: removals are the members of old that are
+   not in new *)
+Theorem updates_removal_iff old new a :
+  addr_sorted old -> addr_sorted new -> (forall d, In d new -> 0 < d_total d) ->
+  (In (a, 0) (updates old new) <-> In a (map d_addr old) /\ ~ In a (map d_addr new)).
+Proof.
+  intros Ho Hn Hpos. rewrite (updates_spec _ _ _ _ Ho Hn). rewrite <- (lookup_none_iff a new).
+  destruct (lookup a (vals new)) as [q|] eqn:Eq; cbn [pw].
+  - apply (in_vals_lookup _ _ _ Hn) in Eq. apply in_vals in Eq. destruct Eq as [d [Hd [_ Et]]].
+    pose proof (Hpos d Hd). split; [intros [_ H0]; lia | intros [_ H0]; discriminate H0].
+  - split.
+    + intros [H _]. split; [|reflexivity].
+      destruct (in_dec N.eq_dec a (map d_addr old)) as [Hi|Hi]; [exact Hi|].
+      apply lookup_none_iff in Hi. congruence.
+    + intros [H _]. split; [|reflexivity]. intros Hc. apply lookup_none_iff in Hc. contradiction.
+Qed.
+
+Print Assumptions updates_minimal.
+Print Assumptions updates_nil_inv.
+Print Assumptions updates_spec.
+Print Assumptions updates_key_iff.
+Print Assumptions updates_removal_iff.
+
+(* ---------- history: folding the per-block diffs reproduces the last selection ---------- *)
+
+Fixpoint map2 {A B C : Type} (f : A -> B -> C) (la : list A) (lb : list B) : list C :=
+  match la, lb with
+  | a :: la', b :: lb' => f a b :: map2 f la' lb'
+  | _, _ => []
+  end.
+
+Lemma last_cons {A} (x y : A) l : last (x :: l) y = last l x.
+Proof.
+  revert x y. induction l as [|z l IH]; intros x y; [reflexivity|].
+  change (last (x :: z :: l) y) with (last (z :: l) y). rewrite !IH. reflexivity.
+Qed.
+
+(* theorem 5 *)
+Theorem history_fold (s0 : list dg) (sets : list (list dg)) :
+  addr_sorted s0 -> Forall addr_sorted sets -> Forall nonzero sets ->
+  fold_left apply_updates (map2 updates (s0 :: sets) sets) (vals s0) = vals (last sets s0).
+Proof.
+  revert s0. induction sets as [|s1 r IH]; intros s0 H0 Hs Hz; [reflexivity|].
+  apply Forall_cons_iff in Hs. destruct Hs as [H1 Hs].
+  apply Forall_cons_iff in Hz. destruct Hz as [Hz1 Hz].
+  cbn [map2 fold_left]. rewrite (updates_apply _ _ H0 H1 Hz1).
+  rewrite last_cons. apply IH; assumption.
+Qed.
+
+(* the same with Tendermint's checks at every block *)
+Fixpoint tm_run (s : list (N * Z)) (upss : list (list (N * Z))) : option (list (N * Z)) :=
+  match upss with
+  | [] => Some s
+  | u :: r => match tm_apply_updates s u with
+              | Some s' => tm_run s' r
+              | None => None
+              end
+  end.
+
+Definition positive (l : list dg) : Prop := forall d, In d l -> 0 < d_total d.
+
+Theorem history_wellformed (s0 : list dg) (sets : list (list dg)) :
+  addr_sorted s0 -> Forall addr_sorted sets -> Forall positive sets ->
+  tm_run (vals s0) (map2 updates (s0 :: sets) sets) = Some (vals (last sets s0)).
+Proof.
+  revert s0. induction sets as [|s1 r IH]; intros s0 H0 Hs Hz; [reflexivity|].
+  apply Forall_cons_iff in Hs. destruct Hs as [H1 Hs].
+  apply Forall_cons_iff in Hz. destruct Hz as [Hz1 Hz].
+  cbn [map2 tm_run]. rewrite (updates_wellformed _ _ H0 H1 Hz1).
+  rewrite last_cons. apply IH; assumption.
+Qed.
+
+Print Assumptions history_fold.
+Print Assumptions history_wellformed.
+
+(* ---------- executable entry point: updateValidators ---------- *)
+
+(* lastv = ctrler.lastValidators, all = the committed delegatees read by BeginBlock.
+   Result: the validator updates handed to the consensus engine and the new lastValidators
+   (sorted by power, as updateValidators leaves it).  None = the slice expression of
+   selectValidators panics (maxN < 0). *)
+Definition end_block_updates (minPower maxN : Z) (lastv all : list dg)
+  : option (list (N * Z) * list dg) :=
+  match select maxN (eligible minPower all) with
+  | None => None
+  | Some sel => Some (updates (sort_addr lastv) (sort_addr sel), sel)
+  end.
+
+Lemma distinct_filter f l : distinct l -> distinct (filter f l).
+Proof.
+  unfold distinct. induction l as [|d l IH]; intros H; [constructor|].
+  cbn [map] in H. apply NoDup_cons_iff in H. destruct H as [Hd H]. cbn [filter].
+  destruct (f d); [|apply IH; exact H]. cbn [map]. constructor; [|apply IH; exact H].
+  intros Hin. apply Hd. apply in_map_iff in Hin. destruct Hin as [x [E Hx]].
+  apply filter_In in Hx. rewrite <- E. apply in_map. apply Hx.
+Qed.
+
+Lemma eligible_distinct minPower all : distinct all -> distinct (eligible minPower all).
+Proof. apply distinct_filter. Qed.
+
+Theorem end_block_updates_neg minPower maxN lastv all :
+  maxN < 0 -> end_block_updates minPower maxN lastv all = None.
+Proof. intros H. unfold end_block_updates. rewrite select_neg by exact H. reflexivity. Qed.
+
+Theorem end_block_updates_ok minPower maxN lastv all ups newlast :
+  0 <= maxN -> distinct lastv -> distinct all ->
+  (forall d, In d all -> minPower <= d_self d -> 0 < d_total d) ->
+  end_block_updates minPower maxN lastv all = Some (ups, newlast) ->
+  select maxN (eligible minPower all) = Some newlast
+  /\ distinct newlast /\ power_sorted newlast
+  /\ sort_power (sort_addr newlast) = newlast
+  /\ tm_apply_updates (vals (sort_addr lastv)) ups = Some (vals (sort_addr newlast)).
+Proof.
+  intros H0 Hdl Hda Hpos He. unfold end_block_updates in He.
+  destruct (select maxN (eligible minPower all)) as [sel|] eqn:Hs; [|discriminate He].
+  injection He as <- <-.
+  pose proof (eligible_distinct minPower all Hda) as Hde.
+  pose proof (select_distinct _ _ _ H0 Hde Hs) as Hds.
+  split; [reflexivity|]. split; [exact Hds|].
+  split; [exact (select_sorted _ _ _ H0 Hde Hs)|].
+  split; [exact (select_resort _ _ _ H0 Hde Hs)|].
+  apply updates_wellformed.
+  - apply sort_addr_sorted. exact Hdl.
+  - apply sort_addr_sorted. exact Hds.
+  - intros d Hd. assert (Hin : In d sel).
+    { eapply Permutation_in; [apply sort_addr_perm | exact Hd]. }
+    destruct (select_subset _ _ _ _ _ H0 Hs Hin) as [Ha Hm]. apply Hpos; assumption.
+Qed.
+
+(* several blocks: (minPower, maxN, committed delegatees) per block *)
+Definition blk : Type := Z * Z * list dg.
+
+Fixpoint run_blocks (lastv : list dg) (blks : list blk) : option (list (list (N * Z)) * list dg) :=
+  match blks with
+  | [] => Some ([], lastv)
+  | (mp, mx, all) :: r =>
+    match end_block_updates mp mx lastv all with
+    | None => None
+    | Some (u, l') =>
+      match run_blocks l' r with
+      | None => None
+      | Some (us, lf) => Some (u :: us, lf)
+      end
+    end
+  end.
+
+Definition blk_ok (b : blk) : Prop :=
+  let '(mp, mx, all) := b in
+  0 <= mx /\ distinct all /\ (forall d, In d all -> mp <= d_self d -> 0 < d_total d).
+
+Theorem run_blocks_ok (blks : list blk) :
+  forall lastv upss lf,
+  distinct lastv -> Forall blk_ok blks ->
+  run_blocks lastv blks = Some (upss, lf) ->
+  tm_run (vals (sort_addr lastv)) upss = Some (vals (sort_addr lf))
+  /\ (forall pre mp mx all, blks = pre ++ [(mp, mx, all)] ->
+                            select mx (eligible mp all) = Some lf).
+Proof.
+  induction blks as [|[[mp mx] all] r IH]; intros lastv upss lf Hd Hok Hr.
+  - injection Hr as <- <-. split; [reflexivity|]. intros [|x pre] ? ? ? H; discriminate H.
+  - apply Forall_cons_iff in Hok. destruct Hok as [[H0 [Hda Hpos]] Hok].
+    cbn [run_blocks] in Hr.
+    destruct (end_block_updates mp mx lastv all) as [[u l']|] eqn:He; [|discriminate Hr].
+    destruct (run_blocks l' r) as [[us lf']|] eqn:Hr'; [|discriminate Hr].
+    injection Hr as <- <-.
+    destruct (end_block_updates_ok _ _ _ _ _ _ H0 Hd Hda Hpos He) as [Hs [Hdn [_ [_ Ht]]]].
+    destruct (IH _ _ _ Hdn Hok Hr') as [IH1 IH2].
+    split.
+    + cbn [tm_run]. rewrite Ht. exact IH1.
+    + intros pre mp' mx' all' E. destruct pre as [|x pre].
+      * cbn [app] in E. injection E as <- <- <- Er. subst r.
+        cbn [run_blocks] in Hr'. injection Hr' as _ <-. exact Hs.
+      * cbn [app] in E. injection E as _ Er. eapply IH2. exact Er.
+Qed.
+
+Theorem run_blocks_total (blks : list blk) :
+  forall lastv, Forall (fun b : blk => 0 <= snd (fst b)) blks -> run_blocks lastv blks <> None.
+Proof.
+  induction blks as [|[[mp mx] all] r IH]; intros lastv Hok; [discriminate|].
+  apply Forall_cons_iff in Hok. destruct Hok as [H0 Hok]. cbn [fst snd] in H0.
+  cbn [run_blocks]. unfold end_block_updates. rewrite select_some by exact H0.
+  specialize (IH (firstn (Z.to_nat (Z.min (Z.of_nat (length (eligible mp all))) mx))
+                         (sort_power (eligible mp all))) Hok).
+  destruct (run_blocks _ r) as [[us lf]|]; [discriminate | contradiction IH; reflexivity].
+Qed.
+
+Print Assumptions end_block_updates_ok.
+Print Assumptions run_blocks_ok.
+Print Assumptions run_blocks_total.
+
+(* ---------- concrete instances: the hypotheses of every theorem are inhabited ---------- *)
+
+Module Examples.
+
+(* committed delegatees seen by block 1: three-way tie in total power (100), broken by the
+   number of stakes (d3 first) and then by address, descending (d2 before d1); d5 has the largest
+   total power but its own stake is below the minimum *)
+Definition d1 := mk_dg 10 50 100 2.
+Definition d2 := mk_dg 20 50 100 2.
+Definition d3 := mk_dg 30 50 100 3.
+Definition d4 := mk_dg 40 70 70 1.
+Definition d5 := mk_dg 50 5 500 4.
+Definition stA : list dg := [d1; d2; d3; d4; d5].
+
+(* seen by block 2: d2 lost power, d3 gained, d4 gained, d6 is new *)
+Definition d2' := mk_dg 20 50 90 2.
+Definition d3' := mk_dg 30 50 120 3.
+Definition d4' := mk_dg 40 70 95 2.
+Definition d6 := mk_dg 25 60 110 1.
+Definition stB : list dg := [d5; d4'; d6; d1; d3'; d2'].
+
+Definition minP : Z := 10.
+Definition maxV : Z := 3.
+
+Ltac in_cases H := cbn in H; repeat (destruct H as [<-|H]); [..|contradiction].
+
+Lemma nodupb_sound (l : list N) : nodupb l = true -> NoDup l.
+Proof.
+  induction l as [|a l IH]; intros H; [constructor|]. cbn [nodupb] in H.
+  apply andb_true_iff in H. destruct H as [H1 H2]. constructor; [|apply IH; exact H2].
+  intros Hin. apply negb_true_iff in H1.
+  assert (existsb (N.eqb a) l = true) as Hc
+    by (apply existsb_exists; exists a; split; [exact Hin | apply N.eqb_refl]).
+  congruence.
+Qed.
+
+Example stA_distinct : distinct stA.
+Proof. apply nodupb_sound. reflexivity. Qed.
+Example stB_distinct : distinct stB.
+Proof. apply nodupb_sound. reflexivity. Qed.
+
+(* selection: ties broken by stake count, then by address descending; d5 not eligible; d4 cut *)
+Example ex_eligible : eligible minP stA = [d1; d2; d3; d4].
+Proof. vm_compute. reflexivity. Qed.
+Example ex_sort_power : sort_power (eligible minP stA) = [d3; d2; d1; d4].
+Proof. vm_compute. reflexivity. Qed.
+Example ex_select_A : select maxV (eligible minP stA) = Some [d3; d2; d1].
+Proof. vm_compute. reflexivity. Qed.
+Example ex_select_B : select maxV (eligible minP stB) = Some [d3'; d6; d1].
+Proof. vm_compute. reflexivity. Qed.
+Example ex_select_neg : select (-1) (eligible minP stA) = None.
+Proof. vm_compute. reflexivity. Qed.
+Example ex_select_zero : select 0 (eligible minP stA) = Some [].
+Proof. vm_compute. reflexivity. Qed.
+Example ex_select_big : select 100 (eligible minP stA) = Some [d3; d2; d1; d4].
+Proof. vm_compute. reflexivity. Qed.
+
+(* select_unique: another correct sort result (any go_sorted permutation) is sort_power *)
+Example ex_go_sorted : go_sorted dg power_lt [d3; d2; d1; d4].
+Proof. repeat constructor. Qed.
+Example ex_select_unique : [d3; d2; d1; d4] = sort_power [d4; d1; d3; d2].
+Proof.
+  apply select_unique.
+  - apply nodupb_sound. reflexivity.
+  - apply NoDup_Permutation.
+    + apply distinct_NoDup. apply nodupb_sound. reflexivity.
+    + apply distinct_NoDup. apply nodupb_sound. reflexivity.
+    + intros x. cbn [In]. tauto.
+  - exact ex_go_sorted.
+Qed.
+
+Example ex_select_length :
+  Z.of_nat (length [d3; d2; d1]) = Z.min (Z.of_nat (length (eligible minP stA))) maxV.
+Proof.
+  apply (select_length maxV (eligible minP stA)); [unfold maxV; lia | exact ex_select_A].
+Qed.
+Example ex_select_sorted : power_sorted [d3; d2; d1].
+Proof.
+  apply (select_sorted maxV (eligible minP stA));
+    [unfold maxV; lia | apply eligible_distinct; exact stA_distinct | exact ex_select_A].
+Qed.
+Example ex_select_subset : In d2 stA /\ minP <= d_self d2.
+Proof.
+  apply (select_subset minP maxV stA [d3; d2; d1]);
+    [unfold maxV; lia | exact ex_select_A | right; left; reflexivity].
+Qed.
+(* d4 is eligible and not selected: it ranks after the selected d1 *)
+Example ex_select_top : power_lt d1 d4 = true /\ power_lt d4 d1 = false.
+Proof.
+  apply (select_top maxV (eligible minP stA) [d3; d2; d1]).
+  - unfold maxV; lia.
+  - apply eligible_distinct; exact stA_distinct.
+  - exact ex_select_A.
+  - right; right; left; reflexivity.
+  - right; right; right; left; reflexivity.
+  - intros H. cbn in H. destruct H as [H|[H|[H|[]]]]; discriminate H.
+Qed.
+
+(* the diff of block 2: d1 unchanged (omitted), d2 removed, d6 added, d3 changed *)
+Definition oldA : list dg := sort_addr [d3; d2; d1].
+Definition newB : list dg := sort_addr [d3'; d6; d1].
+
+Example ex_oldA : oldA = [d1; d2; d3].
+Proof. vm_compute. reflexivity. Qed.
+Example ex_newB : newB = [d1; d6; d3'].
+Proof. vm_compute. reflexivity. Qed.
+Example ex_updates : updates oldA newB = [(20%N, 0); (25%N, 110); (30%N, 120)].
+Proof. vm_compute. reflexivity. Qed.
+
+Example oldA_sorted : addr_sorted oldA.
+Proof. apply sort_addr_sorted. apply nodupb_sound. reflexivity. Qed.
+Example newB_sorted : addr_sorted newB.
+Proof. apply sort_addr_sorted. apply nodupb_sound. reflexivity. Qed.
+Example newB_positive : positive newB.
+Proof. intros d H. in_cases H; cbn; lia. Qed.
+Example newB_nonzero : nonzero newB.
+Proof. intros d H. pose proof (newB_positive d H). lia. Qed.
+
+Example ex_updates_apply : apply_updates (vals oldA) (updates oldA newB) = vals newB.
+Proof. exact (updates_apply _ _ oldA_sorted newB_sorted newB_nonzero). Qed.
+Example ex_updates_apply_compute :
+  apply_updates (vals oldA) (updates oldA newB) = [(10%N, 100); (25%N, 110); (30%N, 120)].
+Proof. vm_compute. reflexivity. Qed.
+Example ex_updates_wellformed :
+  tm_apply_updates (vals oldA) (updates oldA newB) = Some (vals newB).
+Proof. exact (updates_wellformed _ _ oldA_sorted newB_sorted newB_positive). Qed.
+Example ex_updates_nodup : NoDup (map fst (updates oldA newB)).
+Proof. exact (updates_nodup _ _ oldA_sorted newB_sorted). Qed.
+Example ex_updates_removal : In 20%N (map d_addr oldA).
+Proof.
+  apply (updates_removals_in_old oldA newB 20%N newB_positive). vm_compute. left. reflexivity.
+Qed.
+Example ex_updates_removal_iff :
+  In (20%N, 0) (updates oldA newB) <-> In 20%N (map d_addr oldA) /\ ~ In 20%N (map d_addr newB).
+Proof. exact (updates_removal_iff _ _ 20%N oldA_sorted newB_sorted newB_positive). Qed.
+Example ex_updates_nonneg : forall a p, In (a, p) (updates oldA newB) -> 0 <= p.
+Proof.
+  apply updates_nonneg. intros d H. pose proof (newB_positive d H). lia.
+Qed.
+Example ex_updates_minimal : updates oldA oldA = [].
+Proof. exact (updates_minimal oldA oldA eq_refl). Qed.
+(* d1 keeps its power: not reported; d3 changes: reported with the new power *)
+Example ex_updates_key_unchanged : ~ In 10%N (map fst (updates oldA newB)).
+Proof.
+  rewrite (updates_key_iff _ _ 10%N oldA_sorted newB_sorted). vm_compute. intros H. apply H.
+  reflexivity.
+Qed.
+Example ex_updates_spec_changed : In (30%N, 120) (updates oldA newB).
+Proof.
+  apply (updates_spec _ _ 30%N 120 oldA_sorted newB_sorted). vm_compute.
+  split; [discriminate | reflexivity].
+Qed.
+(* Tendermint rejects a malformed list: removal of an absent validator, duplicates, negative *)
+Example ex_tm_reject_absent : tm_apply_updates (vals oldA) [(99%N, 0)] = None.
+Proof. vm_compute. reflexivity. Qed.
+Example ex_tm_reject_dup : tm_apply_updates (vals oldA) [(10%N, 5); (10%N, 6)] = None.
+Proof. vm_compute. reflexivity. Qed.
+Example ex_tm_reject_neg : tm_apply_updates (vals oldA) [(10%N, -5)] = None.
+Proof. vm_compute. reflexivity. Qed.
+
+(* history from an empty genesis validator set over three blocks (the third removes d6 and d3,
+   brings d2 and d4 back) *)
+Definition stC : list dg := [d1; mk_dg 20 50 130 5; d4'; mk_dg 30 5 120 3; mk_dg 25 60 10 1].
+Definition setC : list dg := sort_addr [mk_dg 20 50 130 5; d1; d4'].
+Definition sets : list (list dg) := [oldA; newB; setC].
+
+Example ex_select_C : select maxV (eligible minP stC) = Some [mk_dg 20 50 130 5; d1; d4'].
+Proof. vm_compute. reflexivity. Qed.
+Example ex_diffs :
+  map2 updates ([] :: sets) sets =
+  [ [(10%N, 100); (20%N, 100); (30%N, 100)];
+    [(20%N, 0); (25%N, 110); (30%N, 120)];
+    [(20%N, 130); (25%N, 0); (30%N, 0); (40%N, 95)] ].
+Proof. vm_compute. reflexivity. Qed.
+
+Example sets_sorted : Forall addr_sorted sets.
+Proof.
+  repeat constructor; apply sort_addr_sorted; apply nodupb_sound; reflexivity.
+Qed.
+Example sets_positive : Forall positive sets.
+Proof. repeat constructor; intros d H; in_cases H; cbn; lia. Qed.
+Example sets_nonzero : Forall nonzero sets.
+Proof.
+  eapply Forall_impl; [|exact sets_positive]. intros l Hl d Hd. pose proof (Hl d Hd). lia.
+Qed.
+
+Example ex_history_fold :
+  fold_left apply_updates (map2 updates ([] :: sets) sets) (vals []) = vals setC.
+Proof. exact (history_fold [] sets (SSorted_nil _) sets_sorted sets_nonzero). Qed.
+Example ex_history_wellformed :
+  tm_run (vals []) (map2 updates ([] :: sets) sets) = Some (vals setC).
+Proof. exact (history_wellformed [] sets (SSorted_nil _) sets_sorted sets_positive). Qed.
+Example ex_history_compute :
+  tm_run [] (map2 updates ([] :: sets) sets) = Some [(10%N, 100); (20%N, 130); (40%N, 95)].
+Proof. vm_compute. reflexivity. Qed.
+
+(* the executable entry points *)
+Example ex_end_block :
+  end_block_updates minP maxV [d3; d2; d1] stB =
+  Some ([(20%N, 0); (25%N, 110); (30%N, 120)], [d3'; d6; d1]).
+Proof. vm_compute. reflexivity. Qed.
+Example ex_end_block_neg : end_block_updates minP (-1) [d3; d2; d1] stB = None.
+Proof. vm_compute. reflexivity. Qed.
+
+Definition blocks : list blk := [(minP, maxV, stA); (minP, maxV, stB); (minP, maxV, stC)].
+Example ex_run_blocks :
+  run_blocks [] blocks =
+  Some ([ [(10%N, 100); (20%N, 100); (30%N, 100)];
+          [(20%N, 0); (25%N, 110); (30%N, 120)];
+          [(20%N, 130); (25%N, 0); (30%N, 0); (40%N, 95)] ],
+        [mk_dg 20 50 130 5; d1; d4']).
+Proof. vm_compute. reflexivity. Qed.
+
+Example blocks_ok : Forall blk_ok blocks.
+Proof.
+  repeat constructor; try (unfold maxV; lia); try (apply nodupb_sound; reflexivity);
+    intros d H Hm; in_cases H; cbn in *; lia.
+Qed.
+Example ex_run_blocks_ok :
+  tm_run (vals (sort_addr [])) (fst (match run_blocks [] blocks with Some r => r | None => ([], []) end))
+  = Some (vals (sort_addr [mk_dg 20 50 130 5; d1; d4'])).
+Proof.
+  destruct (run_blocks_ok blocks [] _ _ (NoDup_nil _) blocks_ok ex_run_blocks) as [H _].
+  rewrite ex_run_blocks. exact H.
+Qed.
+
+End Examples.
